@@ -17,6 +17,14 @@ type pt struct {
 	S string
 }
 
+// opt has omittable fields: a member with a zero field is encoded without it, so a decoder
+// that reuses one scratch value across items would leak the previous item's field.
+type opt struct {
+	Host string `json:"host,omitempty" yaml:"host,omitempty"`
+	Port int    `json:"port,omitempty" yaml:"port,omitempty"`
+	TLS  bool   `json:"tls,omitempty" yaml:"tls,omitempty"`
+}
+
 // setOps runs protocol ops on a real set.Set[T]; elements are indices into a universe.
 type setOps interface {
 	execRT(codec, mode string, tgt []string) string
@@ -219,6 +227,7 @@ func newSetImpl() *setImpl {
 		"ystring": &typedSet[string]{uni: []string{"", "true", "null", "1", "- x", "a: b", "~", "héllo wörld", "0x1f", "no", "1e3", " lead", "trail ", "multi\nline", "\"q\"", "#c", "[a]", "{b}", "*x", "&y", "!t", "|", ">", "%", "@", "`", "'s'", "null ", "True", "FALSE", "1.0", ".5", "-", "?", ":", ",", "\t", "é", "日本", "\u0000z"}},
 		"float":   &typedSet[float64]{uni: []float64{0, 1, -1.5, 0.1, 1e21, 3.141592653589793, 1e-7, 123456789.125, -2, 5e-324, 1.7976931348623157e308, 100}},
 		"bool":    &typedSet[bool]{uni: []bool{false, true}},
+		"ostruct": &typedSet[opt]{uni: []opt{{}, {Host: "a"}, {Port: 443}, {TLS: true}, {Host: "b", Port: 443, TLS: true}, {Host: "a", Port: 80}, {Host: "b"}, {Port: 80, TLS: true}, {Host: "c", TLS: true}, {Host: "c"}}},
 		"wint":    &typedSet[int64]{uni: func() []int64 { r := make([]int64, 60); for i := range r { r[i] = int64(i*i*i) - 5000 }; r[59] = 1<<63 - 1; r[58] = -1 << 63; return r }()},
 	}}
 }
@@ -364,7 +373,7 @@ func runC17(f *hx.Flags) {
 	if f.Tier == "thorough" {
 		n = r.N(200000)
 	}
-	kinds := []string{"int", "string", "struct", "ystring", "float", "bool", "wint"}
+	kinds := []string{"int", "string", "struct", "ystring", "float", "bool", "wint", "ostruct", "ostruct"}
 	for i := 0; i < n; i++ {
 		kind := kinds[r.Rng.Intn(len(kinds))]
 		usz := impl.kind[kind].size()
